@@ -72,6 +72,11 @@ known("KF11-python-equality-stricter-than-unification", ["C18"],
                  {"clause": "eq-differs-from-unification", "cause": "same-text-different-class"},
                  {"clause": "eq-differs-from-unification", "cause": "negation-spelling"}])
 
+known("KF35-negative-zero-equal-but-not-unifiable", ["C18"],
+      "0.0 and -0.0 compare equal (Python float equality) and hash alike, but unification compares signatures (printed text) and rejects the pair",
+      "Term.from_string('p(0.0)') == Term.from_string('p(-0.0)') is True; unify_value on the two raises UnifyError",
+      match={"clause": "eq-differs-from-unification", "cause": "negative-zero"})
+
 EXP_CL = ["negative-cycle-on-stratified", "prob", "missing-instance", "spurious-answer", "export-changes-answer", "crash", "wrong-error", "answered-inconsistent-evidence", "spurious-inconsistent-evidence"]
 known("KF12-to-prolog-merges-groundings-of-an-ad", ["C25"],
       "to_prolog prints every grounding of an annotated disjunction as the same clause and merges the auxiliary bodies of the groundings (0.3::a; 0.4::b :- h, \\+aux_1. printed twice with aux_1 :- g(c1). aux_1 :- g(c2).): the exported text has a different distribution",
@@ -123,7 +128,11 @@ fixed("FX12-nested-extension-redirect-chain", ["C29"], "b16d578", "a second-leve
 known("KF15-findall-order-follows-tabled-evaluation", ["C13", "C19"],
       "the list built by findall/3 has Prolog's elements but not always Prolog's SLD order: answers of a called predicate are tabled (identical answers of different clauses are merged, results are grouped per answer) and results of clause nodes (non-ground facts, rules) and fact nodes of one predicate are delivered in different phases",
       "p(_,1). p(a,2). p(b,3). p(_,4). p(a,0). w(L) :- findall(N, p(a,N), L).  gives [1,4,2,0], Prolog gives [1,2,4,0]",
-      match_any=[{"clause": "findall-order", "mode": "seq"}, {"clause": "findall-duplicates-merged", "mode": "seq"}])
+      match_any=[{"clause": "findall-order", "mode": "seq"}])
+known("KF15b-all3-eliminates-duplicates", ["C19"],
+      "all/3 lists a solution that holds in several ways once (it behaves like YAP's all/3, as docs/source/modeling_basic.rst says of findall); the property asks for Prolog's findall list with duplicates, minus the empty list. findall/3 itself keeps duplicates on the pinned tree",
+      "0.2::g(c). 0.7::g(c). w(L) :- all(X, g(X), L). query(w(_)).  reports w([c]) 0.76; with duplicates: w([c]) 0.62, w([c,c]) 0.14",
+      match={"clause": "findall-duplicates-merged", "mode": "seq", "kind": "all"})
 known("KF3b-toplevel-repeated-variable-query-deterministic", ["C13"],
       "same defect as KF3 on deterministic programs: engine.query(db, p(X,X)) returns answers that are not instances of the query",
       "p(2,Y). ?- p(X,X).  returns p(2,_) instead of p(2,2)",
